@@ -1,6 +1,6 @@
 (* C17 - results are independent of buffer provenance; arguments are never modified. *)
 From Coq Require Import List ZArith Bool Arith.
-From Pico Require Import Base.Res Base.Mach Wire.Wire Schema.Types Schema.Scalar Ref.Ref Schema.ScalarProofs Enc.Enc Enc.EncProofs Enc.CBuf Schema.Gen Schema.Interp Schema.EncSpec Schema.EncProgProofs Schema.Calls Enc.CBufProg.
+From Pico Require Import Base.Res Base.Mach Wire.Wire Schema.Types Schema.Scalar Ref.Ref Schema.ScalarProofs Enc.Enc Enc.EncProofs Enc.CBuf Schema.Gen Schema.Interp Schema.EncSpec Schema.EncProgProofs Schema.Calls Enc.CBufProg Enc.CBufMsg.
 Import ListNotations.
 Open Scope nat_scope.
 
@@ -64,6 +64,22 @@ Theorem C17_encode_into_any_buffer : forall extra fuel cs b1 b2, wf b1 -> wf b2 
                 view r1 = view r2 /\ view r1 = flat_map (spec_call fuel) cs.
 Proof. exact encode_into_any_buffer. Qed.
 
+(* GENERATED Encode methods (the interpreter of emitted programs, every statement kind: scalars, packed lists, sub-messages
+   by pointer / by value / repeated, oneof members, Timestamp / Duration / map casts, captured unrecognized fields) run on
+   a concrete buffer refine the list-level run the other theorems (T_enc, C01, C03, C06) speak about, for every program
+   list, message, nesting depth, backing array, capacity and growth policy *)
+Theorem C17_generated_encode_refines : forall extra progs fuel idx m b, wf b ->
+  match enc_msg fuel progs idx m (view b) with
+  | Ok (v, ok) => exists b', enc_msg_c extra fuel progs idx m b = Ok (b', ok) /\ view b' = v /\ wf b'
+  | Panic => True
+  end.
+Proof. intros extra progs fuel idx m b Hw. exact (enc_msg_refines extra progs fuel idx m b Hw). Qed.
+
+(* MarshalBuffer(msg, buffer) for a buffer of ANY provenance returns exactly the bytes of Marshal(msg) *)
+Theorem C17_marshal_buffer_is_marshal : forall extra fuel progs idx m b v, wf b -> pico_marshal fuel progs idx m = Ok v ->
+  exists b', pico_marshal_buffer extra fuel progs idx m b = Ok b' /\ view b' = v /\ wf b'.
+Proof. exact marshal_buffer_is_marshal. Qed.
+
 Example C17_nonvacuous : view (append_c (fun _ _ => [9; 9]%Z) {| arr := [1; 2; 7; 7]%Z; len := 2 |} [5; 6; 8]%Z) = [1; 2; 5; 6; 8]%Z /\
   view (append_c (fun _ _ => []) {| arr := [1; 2; 7; 7]%Z; len := 2 |} [5]%Z) = [1; 2; 5]%Z.
 Proof. split; vm_compute; reflexivity. Qed.
@@ -80,6 +96,19 @@ Example C17_program_nonvacuous :
 Proof. repeat split; vm_compute; reflexivity. Qed.
 Local Close Scope Z_scope.
 
+(* message { int32 a = 1; Sub s = 2; repeated sint32 l = 3; }  Sub { string t = 1; }  into a dirty, too small buffer *)
+Local Open Scope Z_scope.
+Definition c17_progs : list prog :=
+  [{| p_enc := [EScalar KInt32 false false false 0 1; EMsgPtr 1 2 1; EScalar KSint32 false true false 2 3]; p_dec := []; p_zero := [] |};
+   {| p_enc := [EScalar KString false false false 0 1]; p_dec := []; p_zero := [] |}].
+Definition c17_msg : msgv := ([VInt 300; VMsg (Some ([VBytes [104; 105]], [])); VList [VInt (-1); VInt 64]], []).
+Example C17_marshal_buffer_nonvacuous :
+  pico_marshal 4%nat c17_progs 0%nat c17_msg = Ok [8; 172; 2; 18; 4; 10; 2; 104; 105; 26; 3; 1; 128; 1] /\
+  (match pico_marshal_buffer (fun _ _ => [238; 238]) 4%nat c17_progs 0%nat c17_msg {| arr := [255; 254; 253; 252; 251]; len := 4%nat |} with
+   | Ok r => view r | Panic => [] end) = [8; 172; 2; 18; 4; 10; 2; 104; 105; 26; 3; 1; 128; 1].
+Proof. split; vm_compute; reflexivity. Qed.
+Local Close Scope Z_scope.
+
 Print Assumptions C17_encode_appends_only.
 Print Assumptions C17_append.
 Print Assumptions C17_reslice.
@@ -88,3 +117,5 @@ Print Assumptions C17_put.
 Print Assumptions C17_programs_on_any_buffer.
 Print Assumptions C17_concrete_refines_abstract.
 Print Assumptions C17_encode_into_any_buffer.
+Print Assumptions C17_generated_encode_refines.
+Print Assumptions C17_marshal_buffer_is_marshal.
